@@ -50,7 +50,8 @@ def key_for(prefix: str, namespaced: bool, name=NAME, namespace=NS) -> tuple:
     return (API_VERSION, plural, namespace if namespaced else None, name)
 
 
-async def _reconcile(spec, objects, inputs, owner, templates, value_functions, cluster_ns, configure=None):
+async def _reconcile(spec, objects, inputs, owner, templates, value_functions, cluster_ns, configure=None,
+                     function_test=None):
     from koreo.resource_function.reconcile import reconcile_resource_function
 
     ku.reset()
@@ -59,6 +60,9 @@ async def _reconcile(spec, objects, inputs, owner, templates, value_functions, c
     for name, vspec in (value_functions or {}).items():
         await ku.offer_value_function(name, copy.deepcopy(vspec))
     fn = await ku.offer_resource_function("rf", copy.deepcopy(spec))
+    ftest = None
+    if function_test is not None and hasattr(fn, "crud_config"):
+        ftest = await _function_test_between(function_test)
     c = cl.Cluster(objects=copy.deepcopy(objects), namespace=cluster_ns)
     c.log_lookups = True      # a kind-to-plural discovery is an API call too
     if configure is not None:
@@ -74,16 +78,30 @@ async def _reconcile(spec, objects, inputs, owner, templates, value_functions, c
         raised = f"{type(e).__name__}: {e}"
     return {"prepared": True, "cluster": c, "raised": raised,
             "outcome": None if res is None else res.outcome,
-            "resource_id": None if res is None else copy.deepcopy(res.resource_id)}
+            "resource_id": None if res is None else copy.deepcopy(res.resource_id), "function_test": ftest}
+
+
+async def _function_test_between(ftest_spec):
+    """run a FunctionTest with koreo's own runner (real prepare_function_test / run_function_test) — what the
+    controller does in the same process between two reconciles"""
+    from koreo.function_test.prepare import prepare_function_test
+    from koreo.function_test.run import run_function_test
+
+    prepared = await prepare_function_test("ft", copy.deepcopy(ftest_spec))
+    if not isinstance(prepared, tuple):
+        return {"prepared": False, "why": ku.outcome_obs(prepared)}
+    result = await run_function_test("ft", prepared[0])
+    return {"prepared": True, "cases": [(t.label, bool(t.test_pass)) for t in (result.test_results or [])]}
 
 
 def reconcile(spec, objects=None, inputs=None, owner=(NS, OWNER_REF), templates=None, value_functions=None,
-              cluster_ns="default", configure=None) -> dict:
+              cluster_ns="default", configure=None, function_test=None) -> dict:
     """one reconcile of a real prepared ResourceFunction against a fresh cluster holding `objects`;
-    `configure(cluster)` may install hooks (latency / competitor) before the run"""
+    `configure(cluster)` may install hooks (latency / competitor) before the run; `function_test` (a FunctionTest
+    spec for the function, cached as "rf") is run with koreo's own runner between prepare and reconcile"""
     owner = (owner[0], copy.deepcopy(owner[1]))
     return ku.run(_reconcile(spec, objects or {}, inputs or {}, owner, templates, value_functions, cluster_ns,
-                             configure))
+                             configure, function_test))
 
 
 async def _reconcile_reprepared(spec, vf_name, vf_specs, objects, inputs, owner, configure):
@@ -303,6 +321,8 @@ EDITS = {
     "metaNull": lambda via: node(metadata=leaf(None, via)),
     "metaMap": lambda via: node(metadata=leaf(EVIL_META, via)),
     "verkindNonStr": lambda via: node(apiVersion=leaf(3, via), kind=leaf({"k": 1}, via)),
+    "ver": lambda via: node(apiVersion=leaf("verif.test/v0alpha1", via)),     # another version of the same kind
+    "kindOnly": lambda via: node(kind=leaf("EvilKind", via)),
 }
 
 
@@ -319,7 +339,7 @@ def base_layer(layer: str, prog: dict):
 def layer_tree(layer: str, prog: dict):
     """benign content of the layer + its adversarial edits (in order); None = the layer is not there"""
     edits = [e for e in prog["edits"] if e["layer"] == layer]
-    if layer != "template" and not edits and layer not in prog.get("benign", []):
+    if layer != "template" and not edits and layer not in prog.get("benign", []) and layer not in prog.get("extra", {}):
         return None
     t = base_layer(layer, prog)
     if layer in prog.get("extra", {}):
@@ -346,7 +366,13 @@ def build(prog: dict) -> dict:
         api["name"] = "=inputs.objName"
     else:
         api["name"] = name
-    if ns is not None:
+    if "nsEmpty" in prog:
+        # the namespace is written (prepare is satisfied) but EVALUATES to nothing: "" | null | a missing input
+        api["namespace"] = "=inputs.objNs"
+        if prog["nsEmpty"] != "missing":
+            inputs["objNs"] = prog["nsEmpty"]
+        ns = None
+    elif ns is not None:
         if prog.get("nsVia"):
             inputs["objNs"] = ns
             api["namespace"] = "=inputs.objNs"
@@ -425,10 +451,26 @@ def build(prog: dict) -> dict:
             "apiVersion": api_version}
 
 
+def function_test_for(prog: dict, b: dict) -> dict:
+    """a FunctionTest of the program's function as a test author would write it: the function's inputs, a
+    currentResource of the function's kind (`prog["functionTest"]["namespace"]`: spelled out or left out), one case"""
+    ft = prog["functionTest"]
+    md = {"name": b["name"]}
+    if ft.get("namespace") and b["ns"] is not None:
+        md["namespace"] = b["ns"]
+    current = {"apiVersion": b["apiVersion"], "kind": b["kind"], "metadata": md, "spec": {"size": 1}}
+    spec = {"functionRef": {"kind": "ResourceFunction", "name": "rf"}, "inputs": copy.deepcopy(b["inputs"]),
+            "testCases": [{"label": "reconciles", "expectResource": copy.deepcopy(current)}]}
+    if ft.get("currentResource", True):
+        spec["currentResource"] = current
+    return spec
+
+
 def run_program(prog: dict) -> dict:
     b = build(prog)
     obs = reconcile(b["spec"], objects=b["objects"], inputs=b["inputs"], owner=b["owner"],
-                    templates=b["templates"], value_functions=b["vfs"])
+                    templates=b["templates"], value_functions=b["vfs"],
+                    function_test=function_test_for(prog, b) if prog.get("functionTest") else None)
     b["obs"] = obs
     return b
 
